@@ -275,3 +275,20 @@ def flat(fx, body, inline=(), setup=None):
                 if s_ not in t.ev_arms[nrm(sc, mapping)]:
                     t.ev_arms[nrm(sc, mapping)].append(s_)
     return t
+
+
+def sort_suffixes(fx, which, ty, sorts=("Sort::General", "Sort::Integer", "Sort::Symbol")):
+    """{sort: the text written after the name of a Variable / FunctionConstant of that sort} (None where it is not `name` + text)"""
+    from . import leaves
+    b = display_impl(fx, which, ty)
+    T_ = flat(fx, b)
+    SORT_, NAME_ = leaves.norm(("place", "self.0.sort")), leaves.norm(("place", "self.0.name"))
+    out = {}
+    for s_ in sorts:
+        try:
+            text = T_.under(lambda c: (c[2] == s_) if (c[:1] == ("arm",) and c[1] == SORT_) else sym.decide_bool(c))
+        except Undecided:
+            text = None
+        ok = text is not None and len(text) == 1 and text[0][0] == () and len(text[0][1]) in (1, 2) and text[0][1][0] == ("hole", "{}", NAME_) and all(isinstance(x, str) for x in text[0][1][1:])
+        out[s_] = ("".join(text[0][1][1:]) if ok else None)
+    return out
